@@ -76,6 +76,31 @@ def _variant_discr(F, adt_pat, name):
     return [int(v['discr']) for v in F.adt(adt_pat)['variants'] if v['name'] == name]
 
 
+def _call_test_edges(F, body, callee):
+    """(Branch, target when the call returned true, target when it returned false) for every branch whose condition IS
+    the bool result of `callee` (possibly negated, possibly through a temp)"""
+    out = []
+    for br in branches(F, body):
+        inner, neg = peel_not(br.desc)
+        if inner[0] == 'call' and D.has_call(('call', inner[1], inner[2], (), inner[4]), callee):
+            out.append((br, br.target(0 if neg else 1), br.target(1 if neg else 0)))
+    return out
+
+
+def _option_tests(F, body, pred):
+    """(Branch, None-target, Some-target) for every branch that tests the discriminant of an Option value x with pred(x):
+    `x.is_none()`, `x.is_some()` (either negated) and `if let None / Some(_) = x` / `match x` are the same test"""
+    out = []
+    for br in branches(F, body):
+        inner, neg = peel_not(br.desc)
+        if inner[0] == 'call' and inner[1] in ('Option::is_none', 'Option::is_some') and len(inner[3]) == 1 and pred(inner[3][0]):
+            none_when = (inner[1] == 'Option::is_none') != neg      # condition value on which the Option is None
+            out.append((br, br.target(1 if none_when else 0), br.target(0 if none_when else 1)))
+        elif br.desc[0] == 'discr' and pred(br.desc[1]) and {v for v, _ in br.edges} <= {0, 1, None}:
+            out.append((br, br.target(STD_VARIANTS['Option']['None']), br.target(STD_VARIANTS['Option']['Some'])))
+    return out
+
+
 def rule_a(ctx):
     F = ctx.facts
     he = ctx.pfn('Connection::handle_event')
@@ -96,16 +121,15 @@ def rule_a(ctx):
     ctx.check(ok, 'a', 'clients_never_follow_migration', rm, rm.where(), 'Client -> false; Server -> server_config.migration', 'remote_may_migrate no longer returns false for clients / the server setting: %s' % [D.render(y) for y in rd])
     hp = ctx.pfn('Connection::handle_packet')
     dec = [c.bb for c in hp.calls_to('Connection::decrypt_packet')]
-    hs = [br for br in branches(F, hp) if D.has_call(br.desc, 'Connection::is_handshaking')]
+    # `is_handshaking() && remote != path.remote -> return` in any evaluation order of the two (pure) tests: cut the edges on
+    # which the connection is known NOT to be handshaking and the edges on which the address is known to MATCH; what is
+    # still reachable from the entry is "handshaking and (address differs or untested)": no decryption may be there
+    hs = _call_test_edges(F, hp, 'Connection::is_handshaking')
     ne2 = guard_edges(ctx, hp, _addr_rel('Ne'))
     ok = bool(hs) and bool(ne2) and bool(dec)
     if ok:
-        ok = False
-        for h in hs:
-            for br, truth, tgt in ne2:
-                # the address test is evaluated on the is_handshaking() == true side, before decryption, and its mismatch edge returns
-                if all(hp.dominates(h.bb, p) for p in dec) and br.bb in hp.reachable_from(h.target(1), avoid=dec) and all(p not in hp.reachable_from(tgt, avoid=[br.bb]) for p in dec):
-                    ok = True
+        cut = {(br.bb, f) for br, t, f in hs} | {(br.bb, o) for br, truth, tgt in ne2 for o in br.other_targets(1 if truth else 0)}
+        ok = not any(p in hp.reachable_from(0, avoid_edges=cut) for p in dec)
     ctx.check(ok, 'a', 'no_migration_during_handshake', hp, hp.where(), 'is_handshaking() && remote != path.remote -> return before decryption', 'handshake packets from another address are processed')
 
 
@@ -176,8 +200,9 @@ def rule_c(ctx):
         ctx.check(D.has_field(v, 'rng'), 'c', 'challenge_from_connection_rng', mg, w.where(), D.render(v)[:100], 'challenge token not drawn from the connection rng')
     # fallback path kept only if prev.challenge.is_none()
     pv = [w for w in field_writes(F, CONN, 'prev_path', crate='quinn_proto') if F.root_of(w.body).id == mg.id and w.kind == 'assign']
-    brs = [br for br in branches(F, mg) if br.desc[0] == 'call' and br.desc[1] == 'Option::is_none' and D.has_field(br.desc, 'challenge')]
-    ok = bool(pv) and bool(brs) and all(all(mg.dominates(br.bb, w.bb) and w.bb not in mg.reachable_from(br.target(0), avoid=[br.bb]) for w in pv) for br in brs)
+    # the test of the displaced path's `challenge` Option discriminant, in any spelling (is_none / !is_some / if let None / match)
+    tests = _option_tests(F, mg, lambda x: x[0] == 'field' and x[2] == 'challenge' and not _is_path_field(x, 'challenge'))
+    ok = bool(pv) and bool(tests) and all(any(mg.dominates(br.bb, w.bb) and w.bb not in mg.reachable_from(some_t, avoid=[br.bb]) for br, none_t, some_t in tests) for w in pv)
     ctx.check(ok, 'c', 'validated_fallback_not_clobbered', mg, mg.where(), 'prev_path = Some(..) only if prev.challenge.is_none()',
               'the fallback path can be overwritten by a path that is itself still under validation (overlapping migrations would revert to an unvalidated address)')
     st = mg.calls_to('TimerTable::set')
